@@ -20,6 +20,11 @@ HERE = os.path.dirname(os.path.abspath(__file__))
 VERIF = os.path.dirname(HERE)
 HARNESS = os.path.join(VERIF, "harness", "h_dict.cc")
 CORPUS = os.path.join(VERIF, "corpus", "C02")
+CXX_KEYWORDS = set("""alignas alignof and and_eq asm auto bitand bitor bool break case catch char char16_t char32_t class compl
+const constexpr const_cast continue decltype default delete do double dynamic_cast else enum explicit export extern false float
+for friend goto if inline int long mutable namespace new noexcept not not_eq nullptr operator or or_eq private protected public
+register reinterpret_cast return short signed sizeof static static_assert static_cast struct switch template this thread_local
+throw true try typedef typeid typename union unsigned using virtual void volatile wchar_t while xor xor_eq std""".split())
 
 
 # ------------------------------------------------------------------ accessor test code from the model's names
@@ -203,7 +208,9 @@ def oracle(R):
         return [("generator-fails", "exp2cxx fails on a schema check-express accepts: " + R.detail[-300:], None)]
     if R.status == "compile-fail":
         first = re.sub(r"^.*?error: ", "", R.detail.split("\n")[0])
-        if re.search(r"type/Sdai\w+\.cc:.*has no member named .\w+_\W", R.detail.split("\n")[0]):
+        if R.schema.name.lower() in CXX_KEYWORDS:
+            sig = "expected_(_before_::_token"              # finding F2: schema name used verbatim as a namespace
+        elif re.search(r"type/Sdai\w+\.cc:.*has no member named .\w+_\W", R.detail.split("\n")[0]):
             sig = "select-calls-missing-accessor"          # names vary with the schema: classify
         else:
             sig = re.sub(r"[^A-Za-z0-9_:<>*()-]+", "_", first.replace("\u2018", "").replace("\u2019", ""))[:80]
@@ -513,7 +520,7 @@ def run(ctx):
     quick = ctx.tier == "quick"
     items = [(nm, s, None) for nm, s in corpus_schemas()]
     run_batch(ctx, b, model_exe, items, "corpus")
-    n_core, n_wide = (18, 6) if quick else (110, 40)
+    n_core, n_wide = (18, 6) if quick else (500, 200)
     g = G.Gen(ctx.rng)
     core = []
     for i in range(n_core):
